@@ -134,7 +134,9 @@ int main(int argc, char** argv)
     bool const thorough = R.thorough();
     int const nlat = 9;
 
-    auto const keys = sp::enumerate(thorough);
+    auto const keys = sp::enumerate(thorough, /* extended = */ true);
+    if (int(sp::leaves().size()) < sp::num_base_leaves || sp::find_leaf("gptlo") != sp::num_base_leaves)
+        R.harness_error("leaf zoo: the base leaves are not the first num_base_leaves entries");
     Tolerance<> const tol = Tolerance<>::from_default();
     // irrational fractions of the lattice spacing
     double const shift[3] = {std::sqrt(2.0) - 1.0, (std::sqrt(3.0) - 1.0) / 2, (std::sqrt(5.0) - 1.0) / 2};
@@ -157,7 +159,7 @@ int main(int argc, char** argv)
         sp::Key k;
         k.kind = 'u';
         k.a = leaf;
-        k.xa = xf >= sp::num_unary_transforms ? 0 : xf;
+        k.xa = xf == sp::xf_tiny ? 0 : xf;
         try
         {
             s->prog = sp::build(k);
@@ -227,7 +229,15 @@ int main(int argc, char** argv)
             for (auto const& t : prog.tags)
                 if (t.rfind("leaf:", 0) == 0)
                     kinds += (kinds.empty() ? "" : "+") + t.substr(5);
-            R.violation("construct-throws:" + first_words(e.what()), cid,
+            // one recorded defect gets its own signature: a GenPrism whose two end faces BOTH
+            // have a duplicate among their leading three vertices is rejected as "both degenerate"
+            bool const leaddup_both
+                = std::string(e.what()).find("polygons are both degenerate") != std::string::npos
+                  && (sp::leaves()[keys[ki].a].name == "gptboth"
+                      || (keys[ki].b >= 0 && sp::leaves()[keys[ki].b].name == "gptboth"));
+            R.violation(leaddup_both ? std::string("genprism-leaddup:valid-prism-rejected")
+                                     : "construct-throws:" + first_words(e.what()),
+                        cid,
                         fmt("construction of a valid program (%s) threw: %s", kinds.c_str(), e.what()));
             R.tag("construct-throws");
             R.end_case();
@@ -340,6 +350,23 @@ int main(int argc, char** argv)
                                 && alt.label == observed)
                                 flipped.push_back(part.kind);
                         }
+                        // one recorded defect gets its own signature: the point lies beyond the
+                        // end plane that GenPrism drops when that end face has a duplicate among
+                        // its leading three vertices (gptlo: z < -hz, gpthi: z > +hz in the
+                        // leaf's own frame).  Any other failure of these leaves (|z| < hz, or a
+                        // different leaf) keeps the generic signatures below.
+                        bool leaddup = false;
+                        for (auto const& part : prog.parts)
+                        {
+                            int end = sp::leaddup_end(sp::leaves()[part.leaf].name);
+                            if (!end)
+                                continue;
+                            auto const& xf = sp::transforms()[part.xf];
+                            so::V3 q = so::to_daughter(prog.tree_r, prog.tree_t, p);
+                            q = so::to_daughter(xf.m3(), xf.v3(), q);
+                            if (end * q.z > ld(sp::gpt_hz))
+                                leaddup = true;
+                        }
                         // one signature per implicated leaf kind (stable identity of WHAT fails)
                         std::vector<std::string> sigs;
                         auto uniq = [](std::vector<std::string> v) {
@@ -347,7 +374,9 @@ int main(int argc, char** argv)
                             v.erase(std::unique(v.begin(), v.end()), v.end());
                             return v;
                         };
-                        if (!alone.empty())
+                        if (leaddup)
+                            sigs.push_back("genprism-leaddup:end-plane-missing");
+                        else if (!alone.empty())
                             for (auto const& k : uniq(alone))
                                 sigs.push_back("leaf-membership:" + k);
                         else if (observed == "<init-failed>")
